@@ -284,7 +284,7 @@ func run(i int) drv.Result {
 
 func main() {
 	drv.Main(drv.Property{
-		ID: "C20", Level: "exploration", PanicIsViolation: true,
+		ID: "C20", Level: "exploration", PanicIsViolation: true, MemLimitGB: 4,
 		Rule:        "one case = one exported PipeN function of internal/pipe (tables generated from the staged source, so a new arity is picked up); per function: (1) 5 arguments x 2 invocations with pairwise non-commuting affine maps and a call trace (order, exactly-once, no application at composition time); (2) the same function instantiated at type any with nil interface values entering and travelling through the pipeline (4 patterns x 4 arguments); (3) a re-entrant invocation issued from inside function k, for every k; (4) two overlapping invocations of one composition, gated at function granularity: all C(2N,N) interleavings for N<=5, all N+1 park points for larger N; every case is non-trivial (any transposition, omission, duplication or shared per-composition state changes trace, value or counters)",
 		Assumptions: []string{"arities outside the generated table do not exist in the package", "argument values beyond those tried are covered by parametricity of the generic functions", "overlapping invocations are serialized by gates: data races inside PipeN itself are not modelled"},
 		Cases: func(string) (int, func(int) string) {
